@@ -22,7 +22,7 @@ for k in $(seq 1 $N); do
       (cd $V && VERIF_REPO=$R ./check $P quick > $OUT/$n.log 2>&1); RC=$?
       (cd $R && git checkout -- . && git clean -fdq)
       VL=$(grep -c "^VIOLATION" $OUT/$n.log)
-      if [ $RC -eq 1 ] && [ $VL -gt 0 ]; then echo "$n: caught ($VL violation lines)"; elif [ "$(jq -r '.caught // true' $d/meta.json)" = "false" ]; then echo "$n: expected_miss (documented, exit $RC)"; else echo "$n: NOT CAUGHT (exit $RC)"; fi
+      if [ $RC -eq 1 ] && [ $VL -gt 0 ]; then echo "$n: caught ($VL violation lines)"; elif [ "$(jq -r "if has(\"caught\") then .caught else true end" $d/meta.json)" = "false" ]; then echo "$n: expected_miss (documented, exit $RC)"; else echo "$n: NOT CAUGHT (exit $RC)"; fi
     done < $OUT/list_$k.txt
     git -C /repo worktree remove --force $R >/dev/null 2>&1; rm -rf $V
   ) > $OUT/worker_$k.out 2>&1 &
